@@ -39,7 +39,7 @@ ASSUMPTIONS = [
     'a message element with no children at all (not schema-valid) may classify as its class or as UnknownMosFileType',
     'damaged texts on which ElementTree raises something other than ParseError are not generated',
 ]
-MANDATORY = ['decorated', 'utf8-bom', 'filter:error', 'source:bytes', 'source:file', 'encoding:latin1', 'encoding:utf16', 'encoding:utf16be', 'ea-shape:unlisted', 'ea-shape:listed',
+MANDATORY = ['decorated', 'utf8-bom', 'namespaced', 'attributes', 'filter:error', 'source:bytes', 'source:file', 'encoding:latin1', 'encoding:utf16', 'encoding:utf16be', 'ea-shape:unlisted', 'ea-shape:listed',
              'ea-op:unknown', 'ea-op:missing', 'ea-source:absent', 'malformed', 'unknown-root',
              'nested-decoy', 'envelope-permuted', 'plain-tag']
 
@@ -261,6 +261,18 @@ def enum_plain_docs():
     yield ['unknown-root'], '<html><body><p>hi</p></body></html>'
     yield ['unknown-root'], B.tostring(_payload_for('roCreate'))
     yield ['unknown-root'], '<mos><heartbeat><time>x</time></heartbeat><messageID>3</messageID></mos>'
+    for tag in TAG_ORDER:
+        # attributes on the envelope and on the message element never matter
+        root = B.envelope(_payload_for(tag), 78)
+        root.attrib.update({'version': '2.8', 'changeDate': 'x'})
+        root.find(tag).attrib.update({'id': 'roCreate', 'class': 'roDelete'})
+        root.text = 'stray text '
+        yield ['plain-tag', 'attributes', f'tag:{tag}'], B.tostring(root)
+        # a default namespace: the elements are then not the (un-namespaced) MOS elements
+        ns = B.tostring(B.envelope(_payload_for(tag), 79)).replace('<mos>', '<mos xmlns="http://example.com/mos">', 1)
+        yield ['unknown-root', 'namespaced'], ns
+        pre = B.tostring(B.envelope(_payload_for(tag), 80)).replace('<mos>', '<mos xmlns:m="http://example.com/m">', 1)
+        yield ['plain-tag', 'unused-prefix-declared', f'tag:{tag}'], pre
     for tag in TAG_ORDER:
         yield ['childless-message-element'], f'<mos><mosID>M</mosID><messageID>1</messageID><{tag}/></mos>'
         yield ['childless-message-element'], f'<mos><messageID>1</messageID><{tag} operation="MOVE"> </{tag}></mos>'
